@@ -166,7 +166,12 @@ def propPair (ms : Ms) (a b : Pt) (r : Rat) (o : PairOut) : String :=
             else "PASS"
           | _, _, _, _, _ => "FAIL:ratio-point-not-finite"
       | _, _ => "FAIL:roundtrip-not-finite"
-  | _ => "FAIL:distance-or-bearing-not-finite"
+  | _ =>
+    -- known finding K16c: tan(0)/tan(0) in RhumbCalculations::new when both latitudes are -90
+    let bothSouthPole := a.y == -90 && b.y == -90
+    match ms, bothSouthPole, allFin [o.dab, o.dba, o.daa, o.dbb] with
+    | .rh, true, some _ => "FAIL:rhumb-bearing-nan-both-at-south-pole"
+    | _, _, _ => "FAIL:distance-or-bearing-not-finite"
 
 /-- the exact part of the model: short-circuits of `point_at_ratio_between` (Haversine, Geodesic) -/
 def modelPair (ms : Ms) (a b : Pt) (r : Rat) (o : PairOut) : Bool × String :=
